@@ -250,7 +250,7 @@ def c04(tier):
         tasks += walk_tasks(Q(tier, 20000, 300000), "six")
         tasks += char_tasks(Q(tier, 60000, 1000000), "six")
         tasks += seed_tasks("wide" if tier == "thorough" else "six")
-        tasks += split_tasks("scaled", {"max_k": Q(tier, 30, 60)}, Q(tier, 30, 60) * 12, [], "six", chunks=16)
+        tasks += split_tasks("scaled", {"max_k": Q(tier, 30, 60)}, Q(tier, 30, 60) * 13, [], "six", chunks=16)
         tasks += texts_tasks(dirblock_programs(c, tier), "six", chunks=32, cfg_mode="rotate")
         c.explore(tasks, f"soup_{label}", props, vh=vh, timeout_ms=Q(tier, 2000, 10000), sample_cap=Q(tier, 60, 300))
     c.exhaustive = True
@@ -338,7 +338,7 @@ def c14(tier):
     c = Check("C14", tier, "model_checking")
     directive_tree_mc(c, tier)
     tasks = basic_corpus(tier, cfgs_soup="default")
-    tasks += split_tasks("scaled", {"max_k": Q(tier, 40, 80)}, Q(tier, 40, 80) * 12, [], "default", chunks=16, sample_every=Q(tier, 97, 499))
+    tasks += split_tasks("scaled", {"max_k": Q(tier, 40, 80)}, Q(tier, 40, 80) * 13, [], "default", chunks=16, sample_every=Q(tier, 97, 499))
     tasks += program_tasks(tier, "default", [PLAIN, COMMENTS, DIRECTIVES, MIXED, REGIONS], sample_every=Q(tier, 499, 4999))
     tasks += texts_tasks(dirblock_programs(c, tier), "default", chunks=32, sample_every=Q(tier, 997, 9973))
     c.explore(tasks, "corpus", ["C14"], sample_cap=Q(tier, 250, 1500))
@@ -479,12 +479,12 @@ def c15(tier):
 _progs = {}
 
 
-def gen_programs(tier, which=("file", "stmts", "types", "routine")):
+def gen_programs(tier, which=("file", "stmts", "types", "routine", "anon")):
     """TLC derives programs from Grammar.tla (simulation of Gen.tla); returns the path of the ndjson file."""
     key = (tier, tuple(which))
     if key in _progs:
         return _progs[key]
-    num = Q(tier, {"file": 500, "stmts": 700, "types": 300, "routine": 300}, {"file": 20000, "stmts": 30000, "types": 12000, "routine": 12000})
+    num = Q(tier, {"file": 500, "stmts": 700, "types": 300, "routine": 300, "anon": 400}, {"file": 20000, "stmts": 30000, "types": 12000, "routine": 12000, "anon": 6000})
     progs, seen = [], set()
     cov = {}
     for w in which:
@@ -585,10 +585,12 @@ def c02(tier):
 def c05(tier):
     build(("release",))
     c = Check("C05", tier, "model_checking")
-    cfgs = [{"begin_style": b, "wrap_column": w, "tab_width": tw, "use_tabs": t, "continuation_indents": ci}
-            for (b, w, tw, t, ci) in [("auto", 120, 2, False, 2), ("always_wrap", 120, 2, False, 2), ("auto", 40, 4, False, 1), ("always_wrap", 20, 3, False, 2),
-                                      ("auto", 60, 2, True, 2), ("always_wrap", 80, 8, False, 3)]]
+    cfgs = [{"begin_style": b, "wrap_column": w, "tab_width": tw, "use_tabs": t, "continuation_indents": ci, "format_multiline_strings": f}
+            for (b, w, tw, t, ci, f) in [("auto", 120, 2, False, 2, True), ("always_wrap", 120, 2, False, 2, False), ("auto", 40, 4, False, 1, True), ("always_wrap", 20, 3, False, 2, True),
+                                         ("auto", 60, 2, True, 2, False), ("always_wrap", 80, 8, False, 3, True), ("auto", 30, 2, False, 2, False)]]
     tasks = program_tasks(tier, cfgs, [PLAIN, MIXED, COMMENTS, DIRECTIVES, ONELINE, ALLBREAKS], cfg_mode="rotate", sample_every=Q(tier, 499, 4999))
+    # one control statement with thousands of statements in its block (the search budget of one line must not be shared)
+    tasks += split_tasks("scaled", {"max_k": Q(tier, 40, 60)}, Q(tier, 40, 60) * 13, [], cfgs[:1], chunks=16)
     c.explore(tasks, "marks", ["C05"], sample_cap=Q(tier, 60, 300))
     return c.finish(
         rule="programs derived by TLC from Grammar.tla carry structure marks (statement / declaration member: own line, one unit deeper than the opener's line; closer: own line at the opener's indentation; control-flow begin under always_wrap); "
@@ -697,7 +699,7 @@ def c12(tier):
             for (f, le, t, tw, w) in [(True, "lf", False, 2, 120), (True, "crlf", False, 4, 40), (False, "lf", False, 2, 120), (True, "lf", True, 2, 30), (False, "crlf", True, 2, 60)]]
     tasks = program_tasks(tier, cfgs, [PLAIN, MIXED, CRLFTABS], cfg_mode="rotate", sample_every=Q(tier, 499, 4999))
     tasks += seed_tasks(cfgs, sample_every=Q(tier, 97, 997))
-    tasks += split_tasks("scaled", {"max_k": Q(tier, 40, 80)}, Q(tier, 40, 80) * 12, [], cfgs, chunks=16, sample_every=Q(tier, 97, 499))
+    tasks += split_tasks("scaled", {"max_k": Q(tier, 40, 80)}, Q(tier, 40, 80) * 13, [], cfgs, chunks=16, sample_every=Q(tier, 97, 499))
     tasks += mlshape_tasks(tier, cfgs, cfg_mode="rotate", sample_every=Q(tier, 997, 9973))
     c.explore(tasks, "mlstrings", ["C12"], sample_cap=Q(tier, 80, 400))
     return c.finish(
